@@ -129,8 +129,9 @@ struct Stats {
 struct EntryInfo {
     /// the store was followed by the verifier's own "certificate validated" event
     validated_event: bool,
-    /// the attempt that stored it ended with a rejection
-    attempt_rejected: bool,
+    /// the attempt that stored it ended with a rejection, or was itself accepted only through a
+    /// listed deviation (the taint propagates)
+    attempt_unsound: bool,
 }
 
 #[allow(clippy::too_many_arguments)]
@@ -170,7 +171,8 @@ fn run_session(kit: &Kit, rt: &tokio::runtime::Runtime, case: &Value, n: usize, 
     }
     for a in case["attempts"].as_array().unwrap() {
         let serve = a["serve"].as_array().unwrap().iter().map(|v| v.as_u64().unwrap() as usize).collect();
-        let predicted = a.get("impl").cloned().unwrap_or(json!("none"));
+        // the model's prediction is about the cached verifier
+        let predicted = if with_cache { a.get("impl").cloned().unwrap_or(json!("none")) } else { json!("none") };
         plan.push((a["start"].as_u64().unwrap() as usize, serve, false, predicted, "attempt"));
     }
     for (k, (start, serve, honest, predicted, role)) in plan.into_iter().enumerate() {
@@ -183,12 +185,12 @@ fn run_session(kit: &Kit, rt: &tokio::runtime::Runtime, case: &Value, n: usize, 
         events.validated.lock().unwrap().clear();
         let asked = certs[start - 1].hash.clone();
         let res = guarded(|| rt.block_on(client.verify_chain(&asked)));
-        let (accepted, err, returned) = match res {
-            Guarded::Done(Ok(m)) => (json!(true), String::new(), Some(m)),
-            Guarded::Done(Err(e)) => (json!(false), format!("{e:#}").chars().take(140).collect(), None),
-            Guarded::Panic(m) => (json!("panic"), m.chars().take(140).collect(), None),
+        let (accepted, panicked, err, returned) = match res {
+            Guarded::Done(Ok(m)) => (true, false, String::new(), Some(m)),
+            Guarded::Done(Err(e)) => (false, false, format!("{e:#}").chars().take(140).collect(), None),
+            Guarded::Panic(m) => (false, true, m.chars().take(140).collect(), None),
         };
-        let ok = accepted == json!(true);
+        let ok = accepted;
         let walk = agg.log.lock().unwrap().clone();
         let stores = cache.stores.lock().unwrap().clone();
         let hits = cache.hits.lock().unwrap().clone();
@@ -235,18 +237,18 @@ fn run_session(kit: &Kit, rt: &tokio::runtime::Runtime, case: &Value, n: usize, 
         });
         // (c) cache hit on an entry stored by an attempt that was rejected afterwards although
         //     the verifier reported that certificate as validated
-        let tainted_hit = hits.iter().any(|h| entries.get(h).map(|e| e.validated_event && e.attempt_rejected).unwrap_or(false));
+        let tainted_hit = hits.iter().any(|h| entries.get(h).map(|e| e.validated_event && e.attempt_unsound).unwrap_or(false));
         for (h, _) in &stores {
-            entries.insert(h.clone(), EntryInfo { validated_event: validated.contains(h), attempt_rejected: !ok });
+            entries.insert(h.clone(), EntryInfo { validated_event: validated.contains(h), attempt_unsound: !ok || following || forged_hit || tainted_hit });
         }
         stats.attempts += 1;
         if ok {
             stats.accepted += 1;
         }
-        if accepted == json!("panic") {
+        if panicked {
             stats.panics += 1;
         }
-        if predicted != json!("none") && predicted != accepted {
+        if predicted != json!("none") && predicted != json!(accepted) {
             stats.mismatch += 1;
         }
         trace.emit(json!({
@@ -257,7 +259,7 @@ fn run_session(kit: &Kit, rt: &tokio::runtime::Runtime, case: &Value, n: usize, 
             "walk": walk.iter().map(|(h, i)| json!([Kit::short(h), i])).collect::<Vec<_>>(),
             "cache_hits": hits.iter().map(|h| Kit::short(h)).collect::<Vec<_>>(),
             "cache_stores": stores.iter().map(|(h, _)| Kit::short(h)).collect::<Vec<_>>(),
-            "accepted": accepted, "err": err, "predicted": predicted,
+            "accepted": accepted, "panicked": panicked, "err": err, "predicted": predicted,
             "dev_following": ok && following,
             "dev_cache_forged": ok && forged_hit,
             "dev_cache_tainted": ok && tainted_hit,
